@@ -315,7 +315,7 @@ func (s *sshJailService) Handle(ctx context.Context, conn net.Conn) error {
 					payloads := []string{}
 
 					for {
-						if decoder.Available() == 0 {
+						if decoder.Available() == 0 || decoder.LastError() != nil {
 							break
 						}
 
@@ -442,7 +442,7 @@ func (s *sshJailService) Handle(ctx context.Context, conn net.Conn) error {
 						decoder := PayloadDecoder(req.Payload)
 
 						for {
-							if decoder.Available() == 0 {
+							if decoder.Available() == 0 || decoder.LastError() != nil {
 								break
 							}
 
